@@ -812,6 +812,7 @@ Qed.
 Lemma capture_into_ok cs full st :
   1 <= length (k_storage st) ->
   exists st', capture_into cs full st = Some st' /\
+              k_pcs st' = (if full then cs else firstn 1 cs) /\
               k_frames st' = Some (if full then cs else firstn 1 cs) /\ 1 <= length (k_storage st').
 Proof.
   intros Hl. unfold capture_into. destruct full.
@@ -821,16 +822,18 @@ Proof.
     assert (A1 : n = Nat.min (length cs) (length filled)) by (rewrite Hlen; exact Hn).
     assert (A2 : firstn n filled = firstn n cs) by (rewrite Hn; exact Hfirst).
     destruct (grow_ok (S (length cs)) cs filled n) as [pcs' [Hg [Hcs Hl']]]; [lia|exact A1|exact A2|lia|].
-    rewrite Hg. eexists. split; [reflexivity|]. cbn [k_frames k_storage]. rewrite Hcs. split; [reflexivity|exact Hl'].
+    rewrite Hg. eexists. split; [reflexivity|]. cbn [k_pcs k_frames k_storage]. rewrite Hcs.
+    split; [reflexivity|]. split; [reflexivity|exact Hl'].
   - pose proof (callers_spec cs (firstn 1 (k_storage st))) as Hc. cbn zeta in Hc.
     destruct (callers cs (firstn 1 (k_storage st))) as [n filled] eqn:Ec. cbn [fst snd] in Hc.
     destruct Hc as [Hn [Hlen Hfirst]].
     assert (H1 : length (firstn 1 (k_storage st)) = 1) by (rewrite firstn_length; lia).
     rewrite H1 in *.
-    eexists. split; [reflexivity|]. cbn [k_frames k_storage]. split.
-    + rewrite Hn, Hfirst. f_equal.
-      destruct cs as [|c cs']; [reflexivity|]. cbn [length]. replace (Nat.min (S (length cs')) 1) with 1 by lia. reflexivity.
-    + rewrite app_length. lia.
+    assert (Hpcs : firstn n filled = firstn 1 cs).
+    { rewrite Hn, Hfirst.
+      destruct cs as [|c cs']; [reflexivity|]. cbn [length]. replace (Nat.min (S (length cs')) 1) with 1 by lia. reflexivity. }
+    eexists. split; [reflexivity|]. cbn [k_pcs k_frames k_storage]. rewrite Hpcs.
+    split; [reflexivity|]. split; [reflexivity|]. rewrite app_length. lia.
 Qed.
 
 Lemma capture_ok (cs : list pc) (full : bool) (ow : list id) (s : store) (Q : list id -> stack -> store -> Prop) :
@@ -838,7 +841,7 @@ Lemma capture_ok (cs : list pc) (full : bool) (ow : list id) (s : store) (Q : li
   msafe (capture cs full) ow s Q.
 Proof.
   intros HQ. unfold capture. apply msafe_bind. apply getp_ok; [reflexivity|]. intros st Hst. cbn [clean] in Hst.
-  destruct (capture_into_ok cs full st Hst) as [st' [-> [Hfr Hl]]]. apply msafe_ret. apply HQ; assumption.
+  destruct (capture_into_ok cs full st Hst) as [st' [-> [_ [Hfr Hl]]]]. apply msafe_ret. apply HQ; assumption.
 Qed.
 
 Lemma stack_free_ok st ow s (Q : list id -> unit -> store -> Prop) :
@@ -1215,4 +1218,110 @@ Proof.
   destruct (run_hist_ok h adv sh_init [] inv_init) as [sh1 [adv1 [all1 [Hrun _]]]].
   rewrite Hrun. cbn [snd]. clear Hrun. unfold hist_specs. induction h as [|[o|] h IH]; cbn [flat_map app]; auto.
   constructor; [eexists; reflexivity|exact IH].
+Qed.
+
+(* ---- goroutines and schedules ---- *)
+Definition thread_ok (th : thread) (ow : list id) : Prop :=
+  t_fault th = None /\
+  (forall o r, In (o, r) (t_done th) -> r = op_spec o) /\
+  match t_cur th with
+  | None => True
+  | Some (o, a) => safe a ow (fun _ r => r = op_spec o)
+  end.
+
+Definition minv (m : machine) : Prop :=
+  exists ows : list (list id), inv (m_sh m) (concat ows) /\ Forall2 thread_ok (m_threads m) ows.
+
+Lemma Forall2_nth_split {A B} (R : A -> B -> Prop) l1 l2 t x :
+  Forall2 R l1 l2 -> nth_error l1 t = Some x ->
+  exists pre y post, l2 = pre ++ y :: post /\ length pre = t /\ R x y /\
+    forall x' y', R x' y' -> Forall2 R (upd_nth t x' l1) (pre ++ y' :: post).
+Proof.
+  intros HF. revert t. induction HF as [|a b l1 l2 Hab HF IH]; intros t Hn.
+  - destruct t; discriminate.
+  - destruct t as [|t]; cbn [nth_error] in Hn.
+    + injection Hn as ->. exists [], b, l2. cbn [app length upd_nth]. repeat split; auto.
+    + destruct (IH t Hn) as [pre [y [post [-> [Hl [Hr Hu]]]]]].
+      exists (b :: pre), y, post. cbn [app length upd_nth]. repeat split; auto.
+Qed.
+
+Lemma concat_mid {A} (pre : list (list A)) y post : concat (pre ++ y :: post) = concat pre ++ y ++ concat post.
+Proof. rewrite concat_app. cbn [concat]. reflexivity. Qed.
+
+Lemma mstep_inv m s : minv m -> minv (mstep m s).
+Proof.
+  intros [ows [Hi HF]]. destruct s as [t c|]; cbn [mstep].
+  - destruct (nth_error (m_threads m) t) as [th|] eqn:Hth; [|exists ows; auto].
+    destruct (Forall2_nth_split _ _ _ _ _ HF Hth) as [pre [ow [post [-> [Hl [Hok Hupd]]]]]].
+    rewrite concat_mid in Hi.
+    destruct Hok as [Hf [Hd Hc]]. unfold thread_step. rewrite Hf.
+    destruct (t_cur th) as [[o a]|] eqn:Hcur.
+    + destruct a as [r|p k|p x k|e]; cbn [safe] in Hc.
+      * (* the operation returns *)
+        exists (pre ++ ow :: post). cbn [m_sh m_threads]. rewrite concat_mid. split; [exact Hi|].
+        apply Hupd. split; [reflexivity|]. cbn [t_done t_cur]. split; [|exact I].
+        intros o' r' Hin. apply in_app_or in Hin. destruct Hin as [Hin|[Heq|[]]]; [apply Hd; exact Hin|].
+        injection Heq as <- <-. exact Hc.
+      * (* Get *)
+        destruct (sh_get_inv (m_sh m) p c (concat pre) ow (concat post) Hi) as [Hcl [Hfr Hi']].
+        destruct (sh_get (m_sh m) p c) as [x sh1]. cbn [fst snd] in *.
+        exists (pre ++ own_add p x ow :: post). cbn [m_sh m_threads]. rewrite concat_mid. split; [exact Hi'|].
+        apply Hupd. split; [reflexivity|]. cbn [t_done t_cur]. split; [exact Hd|]. apply Hc; assumption.
+      * (* Put *)
+        destruct Hc as [Hcl [Hown Hk]].
+        exists (pre ++ own_del p x ow :: post). cbn [m_sh m_threads]. rewrite concat_mid. split.
+        -- apply sh_put_inv; try assumption. eapply inv_NoDup_mid. exact Hi.
+        -- apply Hupd. split; [reflexivity|]. cbn [t_done t_cur]. split; [exact Hd|exact Hk].
+      * contradiction.
+    + destruct (t_todo th) as [|o r] eqn:Htodo.
+      * exists (pre ++ ow :: post). cbn [m_sh m_threads]. rewrite concat_mid. split; [exact Hi|].
+        apply Hupd. split; [exact Hf|]. split; [exact Hd|]. rewrite Hcur. exact I.
+      * exists (pre ++ ow :: post). cbn [m_sh m_threads]. rewrite concat_mid. split; [exact Hi|].
+        apply Hupd. split; [reflexivity|]. cbn [t_done t_cur]. split; [exact Hd|]. apply op_safe.
+  - exists ows. cbn [m_sh m_threads]. split; [apply sh_gc_inv; exact Hi|exact HF].
+Qed.
+
+Lemma minv_init progs : minv (minit progs).
+Proof.
+  exists (map (fun _ => []) progs). unfold minit. cbn [m_sh m_threads]. split.
+  - replace (concat (map (fun _ : list op => []) progs)) with (@nil id); [apply inv_init|].
+    induction progs as [|p progs IH]; [reflexivity|]. cbn [map concat app]. exact IH.
+  - induction progs as [|p progs IH]; cbn [map]; constructor; [|exact IH].
+    split; [reflexivity|]. cbn [t_done t_cur]. split; [intros o r []|exact I].
+Qed.
+
+Lemma mrun_inv sc : forall m, minv m -> minv (mrun m sc).
+Proof.
+  induction sc as [|s sc IH]; intros m Hm; cbn [mrun fold_left]; [exact Hm|].
+  apply IH. apply mstep_inv. exact Hm.
+Qed.
+
+(* for all programs (one list of operations per goroutine), all schedules (which goroutine
+   performs its next pool interaction, what the pool hands out, when the collector runs):
+   no goroutine ever faults and every completed operation produced its specification *)
+Theorem schedules_thm (progs : list (list op)) (sc : list sched) :
+  Forall (fun th => t_fault th = None /\ forall o r, In (o, r) (t_done th) -> r = op_spec o)
+         (m_threads (mrun (minit progs) sc)).
+Proof.
+  destruct (mrun_inv sc _ (minv_init progs)) as [ows [_ HF]].
+  induction HF as [|th ow ths ows' Hok HF IH]; constructor; [|exact IH].
+  destruct Hok as [Hf [Hd _]]. auto.
+Qed.
+
+(* ------------------------------------------------------------------ *)
+(* part 5: wire                                                       *)
+(* ------------------------------------------------------------------ *)
+Lemma bytes_eqb_refl b : bytes_eqb b b = true.
+Proof. apply bytes_eqb_eq. reflexivity. Qed.
+
+Lemma machine_ok_true h adv p : machine_ok h adv p = true.
+Proof.
+  unfold machine_ok. destruct p as [o|]; [|reflexivity].
+  rewrite !observe_spec. apply bytes_eqb_refl.
+Qed.
+
+Lemma spec_model i : wf i = true -> spec i (Model.model i) = true.
+Proof.
+  unfold Model.model, wf, spec. rewrite machine_ok_true.
+  destruct (w_kind i); intros H; try exact H; cbn [sx_eqb]; rewrite bytes_eqb_refl; reflexivity.
 Qed.
